@@ -206,13 +206,18 @@ def extract(run, scratch):
                 run.spec_drift(f"{s}/export_list/not_shipped:{n}",
                                f"{modname}.{n}() defines {names} but the module's __main__ export list does not ship it")
         fname = filename or (s + ".c")
-        if os.path.splitext(fname)[0] != SPEC_FILE[s]:
-            raise MachineryError(f"{s}: __main__ writes {fname}; the spec models {SPEC_FILE[s]}.c (spec stale)")
+        main_stem = os.path.splitext(fname)[0]
+        if main_stem != SPEC_FILE[s]:
+            # the file name is not promised by the property; what is promised (no function of a set dropped) is decided
+            # by the shared-directory run below, where two entry points writing the same file lose one set
+            run.spec_drift(f"{s}/main_file_name:{fname}", f"`python -m {modname}` writes {fname}; the set is modelled as {SPEC_FILE[s]}.c")
+            fname = SPEC_FILE[s] + ".c"
         defaults[s] = option_defaults(mod.generate_code)
 
         def call_model(dest, _m=mod, _eqs=eqs, _fn=fname, **opts):
             _m.generate_code(_eqs, filename=_fn, dest_dir=dest, **opts)
-        info[s] = {"funcs": dict(eqs), "call": call_model, "main_artifact": dest if main_err is None else None}
+        info[s] = {"funcs": dict(eqs), "call": call_model, "main_artifact": dest if main_err is None else None,
+                   "main_stem": main_stem, "modname": modname}
 
     # --- reference trajectory: no generator of its own -> the generic cyecca.codegen entry point
     with quiet():
@@ -935,12 +940,32 @@ def sequence_check(run, info, defaults):
             first = _snapshot(d1)
             for k, v in defaults[gen].items():
                 dk = os.path.join(base, "t_" + k); os.makedirs(dk)
+                part = None
                 try:
                     with quiet():
                         call(dk, **{k: (not v)})
+                    part = _snapshot(dk)
                 except Exception:       # noqa: failing rows are judged by the row checks
                     pass
                 n += 1
+                # the same option combination given in full: an option that is left out means the generator's own default
+                dt_ = os.path.join(base, "f_" + k); os.makedirs(dt_)
+                full = None
+                try:
+                    with quiet():
+                        call(dt_, **{**defaults[gen], k: (not v)})
+                    full = _snapshot(dt_)
+                except Exception:       # noqa
+                    pass
+                n += 1
+                if (part is None) != (full is None):
+                    run.violation(f"{s}/generate/partial_options/{k}", f"passing only {k}={not v} {'fails' if part is None else 'succeeds'} while the same "
+                                  f"combination with every option spelled out {'succeeds' if part is None else 'fails'}", {"kind": "sequence", "set": s, "option": k})
+                elif part is not None and part != full:
+                    diff = sorted(set(part) ^ set(full)) or [f for f in part if part[f] != full.get(f)]
+                    run.violation(f"{s}/generate/partial_options/{k}", f"passing only {k}={not v} produces a different artefact than the same combination with "
+                                  f"every option spelled out: options left out do not keep the generator's defaults (differs: {diff[:4]})",
+                                  {"kind": "sequence", "set": s, "option": k, "files_partial": sorted(part), "files_full": sorted(full)})
             d2 = os.path.join(base, "again"); os.makedirs(d2)
             with quiet():
                 call(d2)
@@ -966,7 +991,10 @@ def main():
     info, defaults = extract(run, scratch)
     G["info"] = info
     if "--replay" in sys.argv:
-        return replay(run, info, sys.argv[sys.argv.index("--replay") + 1])
+        rp = sys.argv[sys.argv.index("--replay") + 1]
+        if json.load(open(rp))["data"].get("kind") not in ("main", "export"):
+            return replay(run, info, rp)
+        print("replay: findings about the shipped entry points are re-evaluated by the full check")
     sequence_check(run, info, defaults)
 
     # ---- TLC on the configuration model, instantiated with the repository's export lists
@@ -1066,12 +1094,46 @@ def main():
                     run.violation(key, what, data)
                 if ev["functions"] == len(info[s]["funcs"]):
                     progs |= {(s, f.name()) for f in info[s]["funcs"].values()}
+    # every shipped command-line entry point run into ONE output directory (what a user generating all the C code does):
+    # afterwards each set's own file must still hold that set's complete inventory
+    shared = os.path.join(scratch, "main_shared")
+    os.makedirs(shared, exist_ok=True)
+    ran = []
+    for s in MODEL_MODULES:
+        if info[s]["main_artifact"] is None:
+            continue
+        argv = sys.argv
+        try:
+            sys.argv = [info[s]["modname"], shared]
+            with quiet():
+                runpy.run_module(info[s]["modname"], run_name="__main__")
+            ran.append(s)
+        except BaseException:       # noqa: already reported by the extraction step
+            pass
+        finally:
+            sys.argv = argv
+    for s in ran:
+        stem = info[s]["main_stem"]
+        tvd = next(t for t in gen_states if t["set"] == s and not t["passed"])
+        cpath = os.path.join(shared, stem + ".c")
+        if not os.path.exists(cpath):
+            run.violation(f"{s}/inventory/missing:*", f"after running every entry point into one directory {stem}.c does not exist "
+                          f"(files: {sorted(os.listdir(shared))})", {"kind": "main", "set": s})
+            continue
+        art = parse_artifact(cpath, os.path.join(shared, stem + ".h"))
+        check_artifact({**tvd, "kind": "__main__/shared_dir", "file": stem}, art, info[s]["funcs"],
+                       lambda k, w, d_: run.violation(k, w + " [all entry points run into one output directory]", {**d_, "kind": "main", "set": s}),
+                       run.spec_drift)
+        n_art += 1
+    run.count("shared_directory_artifacts", len(ran))
     # the artefact written by the module's own __main__ (python -m cyecca.models.<m> <dir>)
     for s in MODEL_MODULES:
         d = info[s]["main_artifact"]
         if d:
             tvd = next(t for t in gen_states if t["set"] == s and not t["passed"])
-            art = parse_artifact(os.path.join(d, SPEC_FILE[s] + ".c"), os.path.join(d, SPEC_FILE[s] + ".h"))
+            stem_ = info[s]["main_stem"]
+            art = parse_artifact(os.path.join(d, stem_ + ".c"), os.path.join(d, stem_ + ".h"))
+            tvd = {**tvd, "file": stem_}
             check_artifact({**tvd, "kind": "__main__"}, art, info[s]["funcs"], run.violation, run.spec_drift)
             n_art += 1
 
